@@ -21,6 +21,7 @@ pub fn exec(op: &str, a: &Value) -> Option<Value> {
         "Instant.fromStr" => run(|| { let d = &a["dt"]; Instant::from_str(&format!("{}-{:02}-{:02}T{:02}:{:02}:{:02}.{:03}{:03}{:03}Z", year_str(js::i(d, "y")), js::i(d, "m"), js::i(d, "d"),
             js::i(d, "h"), js::i(d, "mi"), js::i(d, "s"), js::i(d, "ms"), js::i(d, "us"), js::i(d, "ns"))) }, p_instant),
         "RealZone.probe" => real_zone_probe(a),
+        "TzifBytes.probe" => tzif_bytes_probe(a),
         _ if op.starts_with("ZonedX.") => zoned_extreme(op, a),
         "ZonedDateTime.new" => run(|| ZonedDateTime::try_new(num(&a["ns"]), iso(), utc()), |z| big(z.epoch_nanoseconds().as_i128())),
         _ => return None,
@@ -79,4 +80,35 @@ fn zoned_extreme(op: &str, a: &Value) -> Value {
         "ZonedX.fromLocal" => run(|| arg_datetime(&a["dt"])?.to_zoned_date_time_with_provider(&tz, Disambiguation::from_str(js::s(a, "dis")).expect("HARNESS dis"), &p), unit),
         _ => json!({"kind": "harness-error", "what": "unknown ZonedX op"}),
     }
+}
+
+/// C03 "whatever time-zone data": the bytes of a bundled TZif file with a few bytes overwritten and/or a truncation go through
+/// Tzif::from_bytes; when they are accepted, offset and wall-clock queries are made at instants around the table.
+fn tzif_bytes_probe(a: &Value) -> Value {
+    use temporal_rs::tzdb::Tzif;
+    use tzif::data::time::Seconds;
+    let path = format!("/usr/share/zoneinfo/{}", js::s(a, "zone"));
+    let Ok(mut bytes) = std::fs::read(&path) else { return json!({"kind": "generic"}) };
+    if let Some(t) = a.get("trunc").and_then(|v| v.as_u64()) { let keep = bytes.len() * (t as usize) / 1000; bytes.truncate(keep); }
+    for m in a["muts"].as_array().map(|v| v.as_slice()).unwrap_or(&[]) {
+        // position in per-mille of the file plus a byte offset, so that the same case means the same thing for every file size
+        let n = bytes.len(); if n == 0 { break; }
+        let pos = ((m[0].as_u64().unwrap_or(0) as usize) * n / 1000 + m[1].as_u64().unwrap_or(0) as usize) % n;
+        bytes[pos] = m[2].as_u64().unwrap_or(0) as u8;
+    }
+    // two observed phases: parsing the bytes, then querying the accepted table
+    let parsed = run(|| Tzif::from_bytes(&bytes), |_| Value::Null);
+    if parsed["kind"] != "ok" { let mut p = parsed; p["phase"] = json!("from_bytes"); return p; }
+    let mut out = run(|| {
+        let t = Tzif::from_bytes(&bytes)?;
+        let mut probes: Vec<i64> = vec![-8_640_000_000_000, -2_208_988_800, -1, 0, 1, 1_615_705_200, 2_208_988_800, 253_402_300_799, 8_640_000_000_000];
+        if let Ok(db) = t.get_data_block2() { for x in db.transition_times.iter().take(3).chain(db.transition_times.iter().rev().take(3)) { probes.extend([x.0.saturating_sub(1), x.0, x.0.saturating_add(3600)]); } }
+        // the instants and wall-clock readings Temporal can ask about lie within +-1e8 days (plus a day) of the epoch
+        probes.retain(|s| s.abs() <= 8_640_000_086_400);
+        let mut answered = 0u32;
+        for s in probes { if t.get(&Seconds(s)).is_ok() { answered += 1; } if t.v2_estimate_tz_pair(&Seconds(s)).is_ok() { answered += 1; } }
+        Ok(answered)
+    }, |n| json!(*n));
+    out["phase"] = json!("queries");
+    out
 }
